@@ -7,6 +7,7 @@ import (
 	"os"
 	"os/exec"
 	"syscall"
+	"time"
 	"runtime/debug"
 	"sort"
 	"strconv"
@@ -171,14 +172,20 @@ func (w *World) getPathInProc(m *fieldmask.FieldMask, root *Ty, path string) (st
 var inChild bool
 var hangMemo = map[string]bool{}
 
-// bareBackslash: is there a backslash outside a double-quoted run?  (Only such a backslash can become
-// the token that never advances; inside quotes str() consumes it.)  Performance filter only: a wrong
-// "false" would show as a harness timeout, never as a wrong verdict.
+// bareBackslash: is there a backslash outside a double-quoted run and after a '[' or '{'?  Only such a
+// backslash can become the token that never advances inside an index/key loop (at top level and after '.'
+// GetPath returns on it; inside quotes str() consumes it).  Performance filter only: a wrong "false"
+// would show as a harness timeout, never as a wrong verdict.
 func bareBackslash(p string) bool {
+	bracket := false
 	for i := 0; i < len(p); i++ {
 		switch p[i] {
+		case '[', '{':
+			bracket = true
 		case '\\':
-			return true
+			if bracket {
+				return true
+			}
 		case '"':
 			i++
 			for i < len(p) && p[i] != '"' {
@@ -213,9 +220,9 @@ func (w *World) getPath(c *Case, m *fieldmask.FieldMask, root *Ty, path string) 
 		cmd.Stdin = bytes.NewReader(js)
 		if _, err := cmd.Output(); err != nil {
 			if ee, ok := err.(*exec.ExitError); ok {
-				if ws, ok := ee.Sys().(syscall.WaitStatus); ok && ws.Signaled() {
+				if ws, ok := ee.Sys().(syscall.WaitStatus); ok && (ws.Signaled() || ws.ExitStatus() == 7) {
 					hangMemo[string(js)] = true
-					return "crash", "", true // killed by its CPU-time limit
+					return "crash", "", true // stopped by its CPU-time watchdog / limit
 				}
 			}
 		}
@@ -246,6 +253,21 @@ func child() error {
 	}
 	m, _, _ := w.newMask(root, c.Black, c.paths())
 	if m != nil {
+		// watchdog on CPU time spent in the call itself (independent of machine load): a terminating
+		// GetPath needs microseconds; 150 ms of user CPU means it is spinning
+		var ru0 syscall.Rusage
+		syscall.Getrusage(syscall.RUSAGE_SELF, &ru0)
+		go func() {
+			for {
+				time.Sleep(5 * time.Millisecond)
+				var ru syscall.Rusage
+				syscall.Getrusage(syscall.RUSAGE_SELF, &ru)
+				used := time.Duration(ru.Utime.Nano() - ru0.Utime.Nano())
+				if used > 150*time.Millisecond {
+					os.Exit(7)
+				}
+			}
+		}()
 		w.getPathInProc(m, root, vl.UnHex(c.GP))
 	}
 	return nil
